@@ -52,7 +52,7 @@ Definition ring0 : ring := mkRing [] 0.
 
 (** compute_new_observation *)
 Definition compute_new (round r1 r2 s : Z) (last : obs) : result obs :=
-  do w <- (if ob_round last =? 0 then Ok 0 else sub_chk round (ob_round last));
+  do w <- (if ob_round last =? 0 then Ok 1 else sub_chk round (ob_round last));
   Ok (mkO (ob_a1 last + w * r1) (ob_a2 last + w * r2) (ob_w last + w) round (ob_lp last + w * s)).
 
 Section Ring.
@@ -233,7 +233,7 @@ Definition run_query (rg : ring) (ev : env) (q : query) : result (list Z) :=
 Definition updating (op : pop) : bool :=
   match op with
   | Add _ _ _ _ _ | Remove _ _ _ _ | SwapIn _ _ _ _ _ | SwapOut _ _ _ _ _
-  | SwapNoFee _ _ _ _ | RemoveBuyBack _ _ _ => true
+  | RemoveBuyBack _ _ _ => true
   | _ => false
   end.
 
